@@ -27,7 +27,7 @@ RULE = (
     "Delay/Result/RetriesProperties, ArgsBucket, ResultBucket with durations up to 100 years at microsecond precision; Redis "
     "message names of distinct keys differ and parse back. Sequence mode: one worker processes 2-6 jobs enqueued one after the "
     "other, several reusing an explicit args_id (and message id) with other arguments, some failing once and retried; every "
-    "execution must receive its own job's arguments; burst variant: everything enqueued before the worker starts, the same "
+    "execution must receive its own job's arguments; the arguments bucket store stalls for 30 / 400 ms in half of the runs; burst variant: everything enqueued before the worker starts, the same "
     "explicit message id on two queues (two distinct messages). non-trivial = a non-default setting or a structured value was used; "
     "distinct = distinct scenario fingerprints (the interleaving hardly varies)."
 )
@@ -163,6 +163,8 @@ def gen(rng, broker, tier):
                 if j["id"]:
                     seen_q.add(j["queue"])
         return {"mode": "sequence", "jobs": jobs, "burst": burst, "conv": rng.choice(["basic", "pydantic"]),
+                # slow I/O: the arguments bucket broker takes this long to store (the message must not be visible earlier)
+                "slow_args_store_us": rng.choice([0, 0, 30_000, 400_000]),
                 "buckets": rng.choice(["mem", "mem", "redis"]) if broker == "redis" else "mem",
                 "knobs": {"step_cost": rng.choice([0, 1]), "net": {"lat_lo": 50, "lat_hi": rng.choice([300, 3000]),
                                                                     "frag_p": rng.choice([0, 0.5]), "max_seg": rng.choice([1 << 30, 64])}}}
@@ -301,6 +303,16 @@ async def _sequence(sim, sc, out):
     connp, connw = world.conn("p"), world.conn("w")
     V = out["violations"]
     calls: list = []
+    if sc.get("slow_args_store_us"):
+        ab = connp.args_bucket_broker
+        inner_store = ab.store_bucket
+
+        async def slow_store(id_, payload):
+            sim.count("fault:slow-args-store")
+            await asyncio.sleep(sc["slow_args_store_us"] / 1e6)
+            return await inner_store(id_, payload)
+
+        ab.store_bucket = slow_store
 
     async def act(i=None, v=None, w=None):
         calls.append((i, {"v": v, "w": w}))
